@@ -240,8 +240,19 @@ def _run(ctx, base):
             if depth <= 5:
                 continue
             want = None  # too deep anyway: only the refusal is judged
+        # decoys: files with the same RELATIVE names (different content) under one of the foreign working directories
+        decoy_dir = cwds[j % 2]
+        made = []
+        if j % 2 == 0:
+            for f in files[1:]:
+                dp = os.path.join(decoy_dir, f.rel)
+                os.makedirs(os.path.dirname(dp), exist_ok=True)
+                with open(dp, "w", encoding="utf-8") as fh:
+                    fh.write('NAME "decoy-must-never-be-read"\n')
+                made.append(dp)
+            res.count("trees_with_decoys_in_cwd")
         for via in ("open", "load", "loads"):
-            os.chdir(rootdir if via == "loads" else r.choice(cwds))
+            os.chdir(rootdir if via == "loads" else (decoy_dir if made else r.choice(cwds)))
             if via == "loads" and any(e.style["abs"] is False for f in files for e in f.entries if isinstance(e, Inc)) is None:
                 pass
             case = {"via": via, "depth": depth, "includes": ninc, "root": root_path, "flat": flat[:4000], "dag": dag,
@@ -295,6 +306,11 @@ def _run(ctx, base):
                 res.violation("files-opened-differ-from-tree", case, {"opened": sorted(set(reads) - set(exp))[:5],
                                                                        "not_opened": sorted(set(exp) - set(reads))[:5],
                                                                        "counts": [len(reads), len(exp)]}, None)
+        for dp in made:
+            try:
+                os.remove(dp)
+            except OSError:
+                pass
         # expand_includes=False: directives are data and are written back unchanged
         if depth >= 1:
             os.chdir(r.choice(cwds))
@@ -352,6 +368,13 @@ def _run(ctx, base):
             victim = r.choice(files[1:])
             os.remove(os.path.join(rootdir, victim.rel))
             res.count("missing_file_cases")
+            # a file of that relative name exists in the current directory: it must not be used instead
+            os.chdir(cwds[0])
+            dp = os.path.join(cwds[0], victim.rel)
+            if not victim.rel.startswith("/") and j % 2 == 0:
+                os.makedirs(os.path.dirname(dp), exist_ok=True)
+                with open(dp, "w", encoding="utf-8") as fh:
+                    fh.write('NAME "decoy"\n')
             try:
                 mappyfile.open(root_path)
                 res.violation("missing-include-file-accepted", {"via": "open", "root": root_path, "missing": victim.rel}, "a dictionary", "OSError")
